@@ -11,7 +11,7 @@ PROP = 'C06'
 MODULE = 'WaveletsVerif.Properties.C06'
 THEOREMS = ['WV.C06.q2c_c2q_adjoint', 'WV.C06.FWD_J1_backward_def', 'WV.C06.FWD_J2PLUS_backward_def', 'WV.C06.colfilter_self_adjoint', 'WV.C06.Kf_symm', 'WV.C06.alongH_self_adjoint', 'WV.C06.fwdJ1_backward_adjoint_rect', 'WV.C06.fwdJ1_backward_adjoint', 'WV.C06.INV_J1_backward_adjoint',
             'WV.C06Q.transpose_tap', 'WV.C06Q.lineD_taps', 'WV.C06Q.lineE_taps', 'WV.C06Q.line_transpose', 'WV.C06Q.coldfilt_colifilt_adjoint',
-            'WV.C06J.loop_adjoint', 'WV.C06J.DTCWT_backward_adjoint', 'WV.C06K.invLoop_adjoint', 'WV.C06K.DTCWTInverse_backward_adjoint', 'WV.C06Q.fwdJ2_backward_adjoint_rect', 'WV.C06Q.fwdJ2_backward_adjoint', 'WV.C06Q.INV_J2PLUS_backward_adjoint', 'WV.C06L.gather2_adjoint', 'WV.C06L.extendMult4_get2', 'WV.C06L.extendEven_get2', 'WV.C06L.ext4_adjoint', 'WV.C06L.ext2_adjoint', 'WV.C06L.loop_adjoint_ext', 'WV.C06L.DTCWT_backward_adjoint_ext', 'WV.C06M.cropToHighs_get2', 'WV.C06M.crop_adjoint', 'WV.C06M.invLoop_adjoint_ext', 'WV.C06M.DTCWTInverse_backward_adjoint_ext']
+            'WV.C06J.loop_adjoint', 'WV.C06J.DTCWT_backward_adjoint', 'WV.C06K.invLoop_adjoint', 'WV.C06K.DTCWTInverse_backward_adjoint', 'WV.C06Q.fwdJ2_backward_adjoint_rect', 'WV.C06Q.fwdJ2_backward_adjoint', 'WV.C06Q.INV_J2PLUS_backward_adjoint', 'WV.C06L.gather2_adjoint', 'WV.C06L.extendMult4_get2', 'WV.C06L.extendEven_get2', 'WV.C06L.ext4_adjoint', 'WV.C06L.ext2_adjoint', 'WV.C06L.loop_adjoint_ext', 'WV.C06L.DTCWT_backward_adjoint_ext', 'WV.C06M.cropToHighs_get2', 'WV.C06M.crop_adjoint', 'WV.C06M.invLoop_adjoint_ext', 'WV.C06M.DTCWTInverse_backward_adjoint_ext', 'WV.C10Z.dtcwt_glue_gen']
 OPS = ['FWD_J1_bwd', 'FWD_J2PLUS_bwd', 'INV_J1_bwd', 'INV_J2PLUS_bwd', 'fwd_j1', 'inv_j1', 'fwd_j2plus', 'inv_j2plus']
 
 
@@ -196,9 +196,60 @@ def oracle_dot(ck, ff, fi, J, shape, o, ri, named, tol):
     return None
 
 
+def oracle_quad_special(ck, shape):
+    """`q2c` and `c2q` carry no filters: every output is a sum or difference of TWO entries of the quad.  An output that a finite change
+    of one input entry leaves bit-identical does not read that entry, so a non-finite value there must leave it bit-identical too
+    (an implementation that multiplies by structural zeros shows `0 * inf`).  These two are the only arithmetic of the hand-written
+    backward passes besides the filters."""
+    import torch
+    from pytorch_wavelets.dtcwt import lowlevel as DL
+    rng = ck.rng
+    h, w = shape
+    desc = 'q2c / c2q on %dx%d quads' % (h, w)
+    replay = {'oracle': 'quad-special', 'shape': [h, w]}
+
+    def flat(o):
+        acc = []
+        def rec(v):
+            if isinstance(v, torch.Tensor): acc.append(v.detach().numpy().copy())
+            else:
+                for u in v: rec(u)
+        rec(o); return acc
+    y = T(gen.float_tensor(ck.nprng, (1, 2, 2 * h, 2 * w)))
+    ws = [T(gen.float_tensor(ck.nprng, (1, 2, h, w))) for _ in range(4)]
+    cases = [('q2c', lambda t: DL.q2c(t), y)] + [('c2q (input %d)' % k, (lambda t, k=k: _c2q(DL, ws, k, t)), ws[k]) for k in range(4)]
+    for name, f, base_in in cases:
+        with torch.no_grad():
+            y0 = flat(f(base_in))
+            for _ in range(6):
+                idx = tuple(rng.randrange(d) for d in base_in.shape)
+                t1 = base_in.clone(); t1[idx] += 3.0
+                yf = flat(f(t1))
+                for val in (float('nan'), float('inf')):
+                    t2 = base_in.clone(); t2[idx] = val
+                    yn = flat(f(t2))
+                    for k, (a, b, c) in enumerate(zip(y0, yf, yn)):
+                        untouched = (a == b)
+                        leak = untouched & ~((a == c) | (np.isnan(a) & np.isnan(c)))
+                        if leak.any():
+                            j = tuple(int(v[0]) for v in np.nonzero(leak))
+                            ck.fail(desc + ': %s with %r at input entry %s: output %d at %s becomes %r although a finite change of that entry leaves it bit-identical (%r) [%d such outputs]' % (
+                                name, val, idx, k, j, float(c[j]), float(a[j]), int(leak.sum())), replay)
+                            return 'leak'
+    ck.oracle_ok(('quad-special', h, w), group='quad-special', sample={'what': desc})
+    return None
+
+
+def _c2q(DL, ws, k, t):
+    v = [t if i == k else ws[i] for i in range(4)]
+    return DL.c2q((v[0], v[1]), (v[2], v[3]))
+
+
 def oracle(ck, extended):
     rng = ck.rng
     q = ck.tier == 'quick'
+    for shp in ((2, 3), (4, 4)):
+        rt.guard(ck, oracle_quad_special, ck, shp)
     pairs = [(b, s) for b in OD.BIORTS for s in OD.QSHIFTS]
     # sizes above every blocking / tiling / chunking threshold (gen.scale_shapes_2d): the adjoint identity per slice for both
     # modules, every level-1 family in turn, several layouts
@@ -290,6 +341,13 @@ def replay(ck, path):
     if not f:
         print('replay file names no failing input: %s' % d.get('broken_obligations'))
         return 1
+    if f['oracle'] == 'quad-special':
+        oracle_quad_special(ck, tuple(f['shape']))
+        for fl in ck.failures:
+            print('REPLAY-FAILS: ' + fl['desc'])
+        if not ck.failures:
+            print('REPLAY-PASSES')
+        return 1 if ck.failures else 0
     if f['oracle'] == 'dot':
         oracle_dot(ck, [arr_from(a) for a in f['ff']], [arr_from(a) for a in f['fi']], f['J'], tuple(f['shape']), f['o'], f['ri'], f['named'], f['tol'])
         for fl in ck.failures:
